@@ -167,6 +167,13 @@ pub fn verif_spec_regexes() -> Vec<(StdLibParser, Regex, &'static [u8])> {
         .collect()
 }
 
+/// Verification hook: the library's automaton deserialiser (the one `spec_library` uses), with
+/// the error returned instead of unwrapped.
+#[cfg(feature = "verif-hooks")]
+pub fn verif_automaton_deserialize(mut bytes: &[u8]) -> Result<Automaton, String> {
+    Automaton::deserialize(&mut bytes)
+}
+
 // Regex formalising the spec of `StdLIbParser::Jwt`.
 fn spec_jwt() -> Regex {
     // Content of a basic field (RFC 8259 JSON string), possibly marked if `marker`
